@@ -264,6 +264,50 @@ def install():
             load_pem_private_key=lambda d, password=None, backend=None: FakePrivateKey(d),
             load_der_public_key=lambda d, backend=None: FakePublicKey(d),
             load_pem_public_key=lambda d, backend=None: FakePublicKey(d))
+        class _KDF(object):
+            kind = "?"
+
+            def __init__(self, **k):
+                self.k = k
+
+            def derive(self, key):
+                _maybe_boom("kdf")
+                LOG.append((self.kind, dict(self.k), key))
+                return self.kind.encode() + b"|" + self.k["algorithm"].name.encode() + b"|" + bytes(self.k["length"])
+
+        class _HKDF(_KDF):
+            kind = "HKDF"
+
+        class _PBKDF2(_KDF):
+            kind = "PBKDF2"
+
+        class _KBKDF(_KDF):
+            kind = "KBKDF"
+
+        class _Hash(object):
+            def __init__(self, algorithm=None, backend=None):
+                self.a, self.data = algorithm, b""
+
+            def update(self, d):
+                self.data += d
+
+            def finalize(self):
+                LOG.append(("Hash", self.a.name, self.data))
+                return b"HASH|" + self.a.name.encode() + b"|" + self.data
+        ce_mod.hashes.Hash = _Hash
+        ce_mod.hkdf = types.SimpleNamespace(HKDF=_HKDF)
+        ce_mod.pbkdf2 = types.SimpleNamespace(PBKDF2HMAC=_PBKDF2)
+        ce_mod.kbkdf = types.SimpleNamespace(KBKDFHMAC=_KBKDF, Mode=types.SimpleNamespace(CounterMode="counter"),
+                                             CounterLocation=types.SimpleNamespace(BeforeFixed="before"))
+
+        def _wrap(wrapping_key, key_to_wrap, backend=None):
+            _maybe_boom("wrap")
+            if len(wrapping_key) not in (16, 24, 32):
+                raise ValueError("The wrapping key must be a valid AES key length")
+            if len(key_to_wrap) < 16 or len(key_to_wrap) % 8 != 0:
+                raise ValueError("The key to wrap must be at least 16 bytes and a multiple of 8 bytes")
+            return b"WRAP|" + wrapping_key + b"|" + key_to_wrap
+        ce_mod.keywrap = types.SimpleNamespace(aes_key_wrap=_wrap)
         ce_mod.default_backend = lambda: None
         e = ce_mod.CryptographyEngine()
         e.logger = NullLogger()
@@ -522,6 +566,104 @@ def sign_verify():
     return h
 
 
+DMETHODS = [enums.DerivationMethod.HMAC, enums.DerivationMethod.HASH, enums.DerivationMethod.PBKDF2,
+            enums.DerivationMethod.NIST800_108_C, enums.DerivationMethod.ENCRYPT, enums.DerivationMethod.ASYMMETRIC_KEY]
+
+
+def derive_plumbing(fix_method=None):
+    """CryptographyEngine.derive_key: the right primitive with exactly the supplied parameters."""
+    def h(mi: int, hi: int, length: int, has_data: bool, has_key: bool, has_salt: bool, has_iter: bool,
+          iters: int, boom: int) -> bool:
+        """
+        post: _
+        """
+        if not (0 <= mi < len(DMETHODS) and 0 <= hi < len(HASHALGS) and length in (1, 16, 64) and 0 <= iters <= 10000
+                and boom == 0):
+            return True
+        if fix_method is not None and mi != fix_method:
+            return True
+        method = None
+        for k in range(len(DMETHODS)):
+            if mi == k:
+                method = DMETHODS[k]
+        hsh = None
+        for k in range(len(HASHALGS)):
+            if hi == k:
+                hsh = HASHALGS[k]
+        data = b"DATA" if has_data else None
+        key = b"KEYMATERIAL-----" if has_key else None
+        salt = b"SALT" if has_salt else None
+        _Boom.kind = None
+        e = install()
+        del LOG[:]
+        hname = HA_NAME.get(hsh)
+        try:
+            out = e.derive_key(method, length, derivation_data=data, key_material=key, hash_algorithm=hsh, salt=salt,
+                               iteration_count=iters if has_iter else None,
+                               encryption_algorithm=A.AES, cipher_mode=BM.CBC, padding_method=PM.PKCS5,
+                               iv_nonce=b"\x00" * 16)
+        except (kex.InvalidField, kex.CryptographicFailure):
+            reach()
+            if method == enums.DerivationMethod.ENCRYPT:
+                return key is None or data is None            # (the encrypt path itself is the encrypt-* conditions' subject)
+            if hname is None or method == enums.DerivationMethod.ASYMMETRIC_KEY:
+                return True
+            if method == enums.DerivationMethod.HASH:
+                return has_data == has_key
+            if method == enums.DerivationMethod.PBKDF2:
+                return not has_salt or not has_iter
+            return False
+        reach()
+        if method == enums.DerivationMethod.ENCRYPT:
+            return data is not None and key is not None and out == b"E[" + _pkcs7_pad(data, 128) + b"]"
+        if hname is None:
+            return False
+        if method == enums.DerivationMethod.HASH:
+            return has_data != has_key and out == b"HASH|" + hname.encode() + b"|" + (data if has_data else key)
+        rec = [x for x in LOG if x[0] in ("HKDF", "PBKDF2", "KBKDF")]
+        if len(rec) != 1:
+            return False
+        kind, kw, used_key = rec[0]
+        if used_key != key or kw["length"] != length or kw["algorithm"].name != hname:
+            return False
+        if method == enums.DerivationMethod.HMAC:
+            return kind == "HKDF" and kw.get("salt") == salt and kw.get("info") == data
+        if method == enums.DerivationMethod.PBKDF2:
+            return kind == "PBKDF2" and has_salt and has_iter and kw.get("salt") == salt and kw.get("iterations") == iters
+        if method == enums.DerivationMethod.NIST800_108_C:
+            return kind == "KBKDF" and kw.get("fixed") == data and kw.get("rlen") == 4
+        return False
+    return h
+
+
+def wrap_plumbing():
+    def h(wm: int, ai: int, klen: int, mlen: int, boom: int) -> bool:
+        """
+        post: _
+        """
+        if not (0 <= wm <= 2 and 0 <= ai <= 2 and klen in (8, 16, 24, 32) and mlen in (8, 16, 20, 24) and 0 <= boom <= 3):
+            return True
+        method = [enums.WrappingMethod.ENCRYPT, enums.WrappingMethod.MAC_SIGN, enums.WrappingMethod.TR_31][wm]
+        alg = [BM.NIST_KEY_WRAP, BM.CBC, None][ai]
+        key = bytes(range(1, klen + 1))
+        material = bytes(range(100, 100 + mlen))
+        _Boom.kind = None if boom == 0 else ("wrap", boom - 1)
+        e = install()
+        try:
+            out = e.wrap_key(material, method, alg, key)
+        except kex.InvalidField:
+            reach()
+            return wm != 0 or ai != 0
+        except kex.CryptographicFailure:
+            reach()
+            return wm == 0 and ai == 0 and (boom != 0 or klen == 8 or mlen in (8, 20))
+        finally:
+            _Boom.kind = None
+        reach()
+        return wm == 0 and ai == 0 and boom == 0 and out == b"WRAP|" + key + b"|" + material
+    return h
+
+
 class LongCrypto(P.RecordingCrypto):
     """A backend whose derive_key returns more bytes than asked (a hash or cipher output is as long as it is)."""
 
@@ -588,6 +730,14 @@ def conditions(tier):
     out.append(Cond("sign-verify", "sign_verify", {}, bounds="digital signature algorithm absent / 6 RSA members / "
                     "DSA_WITH_SHA1, hashing algorithm absent / 6 supported / MD2, padding absent/PKCS1v15/PSS/OAEP, "
                     "cryptographic algorithm absent/RSA/AES, data len<=2", timeout=900, part="signature"))
+    for mi in range(len(DMETHODS)):
+      out.append(Cond("derive-plumbing-%s" % DMETHODS[mi].name, "derive_plumbing", dict(fix_method=mi),
+                    bounds="derive_key, method " + DMETHODS[mi].name + ": hashing algorithm absent / 6 supported / MD2, length 1/16/64, derivation data / "
+                           "key material / salt / iteration count present or not, iterations 0..10000", timeout=900,
+                    part="derive"))
+    out.append(Cond("wrap-plumbing", "wrap_plumbing", {},
+                    bounds="wrap_key: 3 wrapping methods, key wrap algorithm NIST_KEY_WRAP/CBC/absent, wrapping key of 8/16/24/32 "
+                           "bytes, key material of 8/16/20/24 bytes, aes_key_wrap behaving or raising", timeout=600, part="wrap"))
     for ot in ("SYMMETRIC_KEY", "SECRET_DATA"):
         out.append(Cond("derive-truncation-%s" % ot, "derive_truncation", dict(object_type=ot),
                         bounds="DeriveKey of a %s of 64/128/256/512 bits by HASH/ENCRYPT/PBKDF2 with a backend that returns "
